@@ -118,7 +118,11 @@ def _shared_tree(rng, kind, sp):
         inner.values = (hg.Count(), root)
         return root, root
     if kind == "prefilled-embedded":
-        x.fill(S.gen_record(rng, {}, {}), 1.0)
+        for _ in range(rng.randint(1, 3)):
+            r_ = S.gen_record(rng, {}, {})
+            if rng.random() < 0.6:
+                r_["c"] = rng.choice([True, False])  # boolean categories are legitimate keys (and do not sort with strings)
+            x.fill(r_, 1.0)
         return hg.Index(x, x), x
     raise ValueError(kind)
 
@@ -249,7 +253,7 @@ def _positive(i, rng, tier):
     sp = S.default_child(ck, rng, {"flavours": ("lambda",)}) if rng.random() < 0.7 else S.gen_spec(rng, 2, {"flavours": ("lambda", "def")})
     if kind == "prefilled-embedded" and not S.has_quantity(sp) and sp["k"] != "Count":
         sp = {"k": "Count"}
-    path = "numpy" if (i // 3) % 2 else "row"
+    path = ("row", "numpy", "row", "dataframe")[(i // 3) % 4]
     failures = []
     counters = {"shared:" + kind: 1, "path:" + path: 1}
     wit = {"sharing": kind, "shared_tree": S.describe(sp), "path": path}
@@ -266,6 +270,14 @@ def _positive(i, rng, tier):
         roots = []
         if path == "row":
             roots, raised = probes.traced_fill(root, rec, 1.0)
+        elif path == "dataframe":
+            # the pandas accessor df.histogrammar(tree) (what df.hg_Bin(...) etc. go through)
+            r2 = dict(rec)
+            bat = B.Batch(B.columns([r2, r2]), "df")
+            try:
+                bat.data.histogrammar(root)
+            except Exception as e:  # noqa: BLE001
+                raised = e
         else:
             r2 = dict(rec)
             bat = B.Batch(B.columns([r2, r2]), "dict")
@@ -412,7 +424,7 @@ def conclusive(agg):
     for k in SHARE_KINDS + ["generic"]:
         if not agg.counters.get("shared:" + k):
             out.append("sharing kind never tried: " + k)
-    for p in ("row", "numpy"):
+    for p in ("row", "numpy", "dataframe"):
         if not agg.counters.get("path:" + p):
             out.append("path never tried: " + p)
     if agg.counters.get("legitimate_fills", 0) < 500:
